@@ -90,6 +90,18 @@ def eval_inv(ex, inv, st, extra):
     return out
 
 
+def oblige_inv(ex, st, kind, k, clauses, t, what):
+    """one obligation per invariant clause; clause m may use clauses < m (each has its own obligation)"""
+    base = list(st.pc)
+    acc = []
+    for (i, txt, g) in clauses:
+        st.pc[:] = base + acc
+        ex.oblige(st, '%s:L%d.%d' % (kind, k, i), g, t, text='loop %d invariant %s: %s' % (k, what, txt))
+        if g is not True:
+            acc.append(Z(g))
+    st.pc[:] = base
+
+
 def havoc(ex, st, body, inv, extra_rebound=()):
     rebound, mutated = modified(body)
     rebound |= set(extra_rebound)
@@ -138,8 +150,7 @@ def exec_while(ex, t, st):
         return unroll_while(ex, t, st)
     q = ex.cur_qual_stack[-1]
     entry = {'entry_' + nm: v for nm, v in st.env.items()}
-    for (i, txt, g) in eval_inv(ex, inv, st, entry):
-        ex.oblige(st, 'inv-init:L%d.%d' % (k, i), g, t, text='loop %d invariant holds on entry: %s' % (k, txt))
+    oblige_inv(ex, st, 'inv-init', k, eval_inv(ex, inv, st, entry), t, 'holds on entry')
     hv = st.fork()
     hv.env.update(entry)
     havoc(ex, hv, t.body, inv)
@@ -157,8 +168,7 @@ def exec_while(ex, t, st):
     exits = []
     for (s, kind, v) in ex.exec_block(t.body, b):
         if kind in ('next', 'continue'):
-            for (i, txt, g) in eval_inv(ex, inv, s, {}):
-                ex.oblige(s, 'inv-preserved:L%d.%d' % (k, i), g, t, text='loop %d invariant preserved: %s' % (k, txt))
+            oblige_inv(ex, s, 'inv-preserved', k, eval_inv(ex, inv, s, {}), t, 'preserved')
             if dec0 is not None:
                 loc = State(s.env, s.heap, s.ver, s.pc, s.ghost)
                 dec1 = ex.evs(inv.of('decreases')[0].args[0], loc)
@@ -248,8 +258,7 @@ def exec_for(ex, t, st):
         n = dom
         itl = st.alloc(SList(n, get, None))
         init_extra = {**entry, '_k': 0, '_n': n, '_iter': itl, '_k%d' % k: 0, '_iter%d' % k: itl}
-        for (i, txt, g) in eval_inv(ex, inv, st, init_extra):
-            ex.oblige(st, 'inv-init:L%d.%d' % (k, i), g, t, text='loop %d invariant holds on entry: %s' % (k, txt))
+        oblige_inv(ex, st, 'inv-init', k, eval_inv(ex, inv, st, init_extra), t, 'holds on entry')
         hv = st.fork()
         hv.env.update(entry)
         havoc(ex, hv, t.body, inv)
@@ -265,8 +274,7 @@ def exec_for(ex, t, st):
         exits = []
         for (s, kd, v) in ex.exec_block(t.body, b):
             if kd in ('next', 'continue'):
-                for (i, txt, g) in eval_inv(ex, inv, s, {'_k': kk + 1, '_k%d' % k: kk + 1}):
-                    ex.oblige(s, 'inv-preserved:L%d.%d' % (k, i), g, t, text='loop %d invariant preserved: %s' % (k, txt))
+                oblige_inv(ex, s, 'inv-preserved', k, eval_inv(ex, inv, s, {'_k': kk + 1, '_k%d' % k: kk + 1}), t, 'preserved')
             elif kd == 'break':
                 exits.append((s, 'next', None))
             else:
@@ -282,8 +290,7 @@ def exec_for(ex, t, st):
     empty = SSet.empty(S.elem)
     e0, s0 = st.alloc(empty), st.alloc(S)
     init_extra = {**entry, '_done': e0, '_iter': s0, '_done%d' % k: e0, '_iter%d' % k: s0}
-    for (i, txt, g) in eval_inv(ex, inv, st, init_extra):
-        ex.oblige(st, 'inv-init:L%d.%d' % (k, i), g, t, text='loop %d invariant holds on entry: %s' % (k, txt))
+    oblige_inv(ex, st, 'inv-init', k, eval_inv(ex, inv, st, init_extra), t, 'holds on entry')
     hv = st.fork()
     hv.env.update(entry)
     havoc(ex, hv, t.body, inv)
@@ -302,8 +309,7 @@ def exec_for(ex, t, st):
         if kd in ('next', 'continue'):
             D2 = SSet(lambda y, D=D, x=x: OR(D.member(y), EQ(y, x)), S.elem)
             d2r = s.alloc(D2)
-            for (i, txt, g) in eval_inv(ex, inv, s, {'_done': d2r, '_done%d' % k: d2r}):
-                ex.oblige(s, 'inv-preserved:L%d.%d' % (k, i), g, t, text='loop %d invariant preserved: %s' % (k, txt))
+            oblige_inv(ex, s, 'inv-preserved', k, eval_inv(ex, inv, s, {'_done': d2r, '_done%d' % k: d2r}), t, 'preserved')
         elif kd == 'break':
             exits.append((s, 'next', None))
         else:
